@@ -529,6 +529,31 @@ func runStreamName(r *vk.Run, via, name string) {
 			}
 			w.SM.DelCustomizePubSession(ctx)
 		}
+	case "api-pull", "api-pull-named":
+		// start_relay_pull: the stream name comes from the request, or (when absent) from the last item of
+		// the pull URL's path; the origin accepts and delivers media
+		w.EnableRelay(map[string]string{"origin": "accept"})
+		req := base.ApiCtrlStartRelayPullReq{Url: "rtmp://" + w.Host("origin") + "/live/" + name, PullRetryNum: 0, AutoStopPullAfterNoOutMs: -1}
+		if via == "api-pull-named" {
+			req = base.ApiCtrlStartRelayPullReq{Url: "rtmp://" + w.Host("origin") + "/live/x", StreamName: name, PullRetryNum: 0, AutoStopPullAfterNoOutMs: -1}
+		}
+		resp := w.SM.CtrlStartRelayPull(req)
+		if err := w.Settle(); err != nil {
+			r.Violation("infra/hang", desc+": "+err.Error(), []string{via, name})
+			return
+		}
+		accepted = resp.ErrorCode == base.ErrorCodeSucc
+		for _, d := range w.LiveDials() {
+			if d.Origin != nil && d.Origin.Started {
+				for i, k := range msgs {
+					m := sw.MakeMsg(k, i, uint32(i*700), 32)
+					d.Origin.SendMsgs(ref.Msg{Csid: 6, Type: m.Type, Msid: 1, Ts: m.Ts, Payload: m.Payload})
+				}
+				w.Settle()
+				d.Origin.Close()
+				w.Settle()
+			}
+		}
 	case "rtsp":
 		p, err := w.RtspPublisher("rtsp://h/live/"+name, sdpOf("streamid=0"), []string{"streamid=0"})
 		if err != nil {
@@ -670,7 +695,7 @@ func main() {
 	r.Cov("hls_paths", len(paths))
 	// (e)
 	names := []string{"a", "..", ".", "../x", "a/../../b", "/abs", "a/b", "..\\x", strings.Repeat("a", 300), "/../x", "//../../x", "/a/../../x", "a/./b", "/.."}
-	for _, via := range []string{"rtmp", "customize", "rtsp"} {
+	for _, via := range []string{"rtmp", "customize", "rtsp", "api-pull", "api-pull-named"} {
 		for _, n := range names {
 			runStreamName(r, via, n)
 		}
